@@ -2589,3 +2589,28 @@ V(id='c38-clone-forgets-pretty', prop='C38', file='mpmath/ctx_mp.py',
 V(id='c38-benign-rs-pi-evaluated-by-product', prop='C38', file='mpmath/functions/rszeta.py',
   old="    pipower[1] = +ctx.pi\n", new="    pipower[1] = ctx.pi*ctx.one\n",
   expect='silent')
+
+# ---- C37 second hunt: Y-R8 bitcount arguments, Y-R9 effective parameters (fixes ce0e1c4.., dcf69ae) ----
+V(id='c37-cospi-bitcount-of-negative-remainder', prop='C37', file='mpmath/libmp/libelefun.py',
+  old="        mag2 = bitcount(abs(man)) + exp\n", new="        mag2 = bitcount(man) + exp\n",
+  expect='fire:Y-R8:mpf_cos_sin')
+V(id='c37-cospi-bitcount-of-exponent', prop='C37', file='mpmath/libmp/libelefun.py',
+  old="        mag2 = bitcount(abs(man)) + exp\n", new="        mag2 = bitcount(abs(man)) + exp + bitcount(exp) - bitcount(exp)\n",
+  expect='fire:Y-R8:mpf_cos_sin')
+V(id='c37-mpf-add-difference-not-negated', prop='C37', file='mpmath/libmp/libmpf.py',
+  old="            if man >= 0:\n                ssign = 0\n            else:\n                man = -man\n                ssign = 1\n        bc = bitcount(man)\n        return normalize(ssign, man, texp, bc, prec or bc, rnd)\n",
+  new="            if man >= 0:\n                ssign = 0\n            else:\n                ssign = 1\n        bc = bitcount(man)\n        return normalize(ssign, abs(man), texp, bc, prec or bc, rnd)\n",
+  expect='fire:Y-R8:mpf_add')
+V(id='c37-benign-cospi-conditional-negation', prop='C37', file='mpmath/libmp/libelefun.py',
+  old="        mag2 = bitcount(abs(man)) + exp\n", new="        mag2 = bitcount(-man if man < 0 else man) + exp\n",
+  expect='silent')
+V(id='c37-benign-cospi-negate-first', prop='C37', file='mpmath/libmp/libelefun.py',
+  old="        mag2 = bitcount(abs(man)) + exp\n", new="        aman = man\n        if aman < 0:\n            aman = -aman\n        mag2 = bitcount(aman) + exp\n",
+  expect='silent')
+V(id='c37-numeral-gmpy-ignores-alphabet', prop='C37', file='mpmath/libmp/libintmath.py',
+  old="    if digits != stddigits or base > 36:\n        return numeral_python(n, base, size, digits)\n", new="",
+  expect='fire:Y-R9:numeral_gmpy')
+V(id='c37-gmpy-mul-int-ignores-rounding', prop='C37', file='mpmath/libmp/libmpf.py',
+  edits=[("        return mpf_mul(s, from_int(n), prec, rnd)\n", "        return mpf_mul(s, from_int(n), prec, round_nearest)\n"),
+         ("    return normalize(sign, man, exp, bitcount(man), prec, rnd)\n", "    return normalize(sign, man, exp, bitcount(man), prec, round_nearest)\n")],
+  expect='fire:Y-R9:gmpy_mpf_mul_int')
